@@ -161,6 +161,7 @@ type obsStep struct {
 	PosInc  [][]string `json:"pos_inc"`  // per position: claimable incentives collected0, collected1, forfeited0, forfeited1 ("" when the query fails)
 	UpAccum [][]string `json:"up_accum"` // per uptime accumulator: value denom0, denom1 (raw Dec), total shares
 	IncRecs [][]string `json:"inc_recs"` // incentive records in store order: id, uptime index, denom index, remaining (raw Dec), rate (raw Dec), start (unix s)
+	RecsNow [][]string `json:"recs_now"` // the same records after bringing the uptime accumulators up to the block time on a discarded branch (what the claimable queries see)
 	NextInc uint64     `json:"next_inc"`
 	LastUpd int64      `json:"last_upd"` // pool LastLiquidityUpdate (unix s)
 	Exit    []exitT    `json:"exit,omitempty"`
@@ -394,6 +395,21 @@ func (w *world) dump(o *obsStep) {
 				rawDec(r.IncentiveRecordBody.EmissionRate), fmt.Sprint(r.IncentiveRecordBody.StartTime.Unix())})
 		}
 	}
+	o.RecsNow = [][]string{}
+	_ = apph.Discard(ctx, func(c2 sdk.Context) {
+		if err := k.UpdatePoolUptimeAccumulatorsToNow(c2, w.poolId); err != nil {
+			return
+		}
+		if recs, err := k.GetAllIncentiveRecordsForPool(c2, w.poolId); err == nil {
+			for _, r := range recs {
+				di := 0
+				if r.IncentiveRecordBody.RemainingCoin.Denom == w.d1 {
+					di = 1
+				}
+				o.RecsNow = append(o.RecsNow, []string{fmt.Sprint(r.IncentiveId), fmt.Sprint(di), rawDec(r.IncentiveRecordBody.RemainingCoin.Amount)})
+			}
+		}
+	})
 	o.NextInc = k.GetNextIncentiveRecordId(ctx)
 	o.LastUpd = pool.GetLastLiquidityUpdate().Unix()
 	o.Uidx = [][]uint64{}
